@@ -312,6 +312,8 @@ def evidence_dir():
     # runs against a mutated copy (VERIF_REPO) must not overwrite the evidence of the real tree
     if os.path.realpath(REPO) != "/repo":
         return os.environ.get("VERIF_EVIDENCE_DIR", "/var/tmp/verif_mutant_evidence")
+    if os.environ.get("VERIF_SWEEP_EVIDENCE_DIR"):
+        return os.environ["VERIF_SWEEP_EVIDENCE_DIR"]  # seed sweeps of my own (tools), never set by a registered command
     return os.path.join(VERIF, "evidence")
 
 
